@@ -1,7 +1,7 @@
 """C07 — parsing recovers exactly the written program and its source locations."""
 import re
 from ..engines import e1_div
-from ..lib.cfgq import switch_edges, dominating_guards, normalized
+from ..lib.cfgq import switch_edges, dominating_guards, normalized, guard_cases
 from ..lib.facts import is_callee, callee_fn, sp_str, const_str
 from ..lib.trace import Tracer, canon, canon_full, strip, walk, mentions_field, root, upvar_origin
 from .C10 import _Filter
@@ -21,6 +21,13 @@ LEVEL_TEXT += (" Also: (E7.a) the query text handed to tree-sitter is the untran
 LEVEL_TEXT += (" (E7.f) a declaration keyword followed — after optional whitespace — by ':' is a field name of the next stanza's query, not a declaration.")
 
 POS_FIELDS = ("offset", "location", "chars")
+
+
+
+def _after_keyword(hay):
+    """the text right after the keyword at the parser position: `rest[keyword.len()..]` or the payload of `rest.strip_prefix(keyword)`"""
+    return ("RangeFrom{str::len(&*arg:keyword)}" in hay and "arg:self.offset" in hay) or \
+        re.search(r"\(str::strip_prefix\(.*arg:self\.offset.*, arg:keyword\) as Some\)\.0", hay) is not None
 
 
 def run(prog, rep):
@@ -139,13 +146,19 @@ def run(prog, rep):
         cn = [(b, t) for b, t in body.calls() if is_callee(t, r"Parser::<'a>::consume_n$")]
         for b, t in cn:
             for g in dominating_guards(body, tr, b):
-                c = strip(g.cond)
-                if c[0] == "call" and re.search(r"str::<impl str>::starts_with", c[1] or "") and g.value is False:
+                cases = guard_cases(g)
+                good = bool(cases)
+                for cond, value in cases:
+                    c = strip(cond) if cond is not None else ("none",)
+                    if not (c[0] == "call" and re.search(r"str::<impl str>::starts_with", c[1] or "") and value is False):
+                        good = False
+                        continue
                     pred = strip(c[3][1])
                     hay = canon(c[3][0])
                     detail = "%s / %s" % (canon(pred), hay[:80])
-                    if pred[0] == "fn" and pred[1] == name_pred and "RangeFrom{str::len(&*arg:keyword)}" in hay:
-                        ok = True
+                    if not (pred[0] == "fn" and pred[1] == name_pred and _after_keyword(hay)):
+                        good = False
+                ok = ok or good
         rep.check(ok, "E7.k", "consume_keyword :: boundary", f.loc(), "consumes only if the text after the keyword does not continue a name (%s)" % name_pred.rsplit("::", 1)[-1],
                   "the keyword boundary test does not use the name-continuation predicate %s on rest[kw.len()..]: %s" % (name_pred.rsplit("::", 1)[-1], detail))
     # which keywords must use it: tokens that are names, consumed where an identifier could also start
@@ -195,16 +208,74 @@ def run(prog, rep):
         okl = False
         for b in sorted(body.reachable()):
             for g in switch_edges(body, tr, b):
-                ncond, nval = normalized(g)
-                c = canon(ncond)
-                if nval is True and re.match(r"^str::starts_with\(&\*str::trim_start\(.*RangeFrom\{str::len\(&\*arg:keyword\)\}\)\), ':'\)$", c) and "arg:self.offset" in c:
+                cases = guard_cases(g)
+                hit = bool(cases)
+                for cond, value in cases:
+                    c = canon(cond) if cond is not None else ""
+                    m = re.match(r"^str::starts_with\(&\*str::trim_start\((.*)\), ':'\)$", c)
+                    if not (value is True and m and _after_keyword(m.group(1))):
+                        hit = False
+                if hit:
                     # the colon edge must fail without consuming
                     r = body.reach_from([g.dst])
                     builds_err = any(st["k"] == "assign" and st["rv"]["k"] == "aggregate" and st["rv"].get("variant") == "Err" for x in r for st in body.blocks[x]["stmts"])
                     consumes = any(cb in r for cb, _t in cons)
-                    okl = builds_err and not consumes
+                    okl = okl or (builds_err and not consumes)
         rep.check(okl, "E7.f", "consume_declaration_keyword :: field-name lookahead", f.loc(), "rest[kw.len()..].trim_start().starts_with(':') → Err, nothing consumed",
                   "the field-name lookahead does not skip whitespace before the ':' (or no longer fails without consuming): `attribute : (x)` is read as a declaration")
+    # ---- E7.eof: a construct that may be the last thing in the file does not end by *demanding* another character
+    rep.rule("E7.eof", "no top-level item (stanza, global, inherit, attribute shorthand) — nor the file loop itself — has a successful path whose last "
+                       "look at the input is an end-of-input-fatal `peek()?`: a valid file must not be rejected because it ends there")
+    from ..engines.e1_div import failure_blocks as _fail_blocks
+    pby = {f.id: f for f in pf if f.kind != "closure"}
+    CONSUMING = r"Parser::<'a>::(next|skip|consume_n|consume_token|consume_keyword|consume_declaration_keyword)$"
+    tail = set()
+    changed = True
+    while changed:
+        changed = False
+        for fid, f in pby.items():
+            if fid in tail:
+                continue
+            body = f.body
+            fail = _fail_blocks(body)
+            preds = {}
+            for b in body.reachable():
+                for x in body.succ(b):
+                    preds.setdefault(x, set()).add(b)
+            seen, work, bad = set(), list(body.return_blocks()), False
+            while work and not bad:
+                x = work.pop()
+                if x in seen or x in fail:
+                    continue
+                seen.add(x)
+                for pb in preds.get(x, ()):
+                    if pb in fail:
+                        continue
+                    t = body.term(pb)
+                    if t["k"] == "call" and t.get("t") == x:
+                        fr = callee_fn(t)
+                        d = fr.get("rdef") or fr["def"]
+                        if re.search(r"Parser::<'a>::peek$", d):
+                            nt = body.term(x)
+                            if nt["k"] == "call" and is_callee(nt, r"Try::branch$|Try>::branch$"):
+                                bad = True          # `peek()?` and nothing consumed afterwards
+                                break
+                            work.append(pb)
+                            continue
+                        if d in tail:
+                            bad = True
+                            break
+                        if re.search(CONSUMING, d) or (d in pby and re.search(r"::(parse_\w+|skip_\w+)$", d)):
+                            continue                # something was consumed after any earlier look-ahead
+                    work.append(pb)
+            if bad:
+                tail.add(fid)
+                changed = True
+    items = [f for f in pby.values() if f.name in ("parse_stanza", "parse_global", "parse_shorthand", "parse_identifier", "parse_into_file")]
+    for f in sorted(items, key=lambda x: x.id):
+        rep.check(f.id not in tail, "E7.eof", "%s :: end of input tolerated" % f.name, f.loc(), "every successful path ends with a consumed token or an end-of-input-safe look-ahead",
+                  "%s can succeed only if another character follows (its last look at the input is `peek()?`): a file that ends with this construct is rejected with UnexpectedEOF" % f.name)
+    rep.floor("E7.eof", len(items), 5, "top-level item parsers")
     # ---- E7.b failed consumption consumes nothing
     rep.rule("E7.b", "consume_token / consume_keyword / consume_declaration_keyword consume nothing on their failure paths")
     for f in pf:
